@@ -39,6 +39,8 @@ TRUSTED = [
     'replaced by a fixed marker (ombott.ombott.format_exc patched by the harness); config.debug = False, '
     'catchall = True, no domain_map',
     'section variables: eh (custom error handlers: arbitrary function code -> handler), reason (http.client phrase table)',
+    'add_hook/remove_hook calls made by hooks or the handler are modelled within one request (after list: effective if made '
+    'before its emit starts; an emit iterates a copy); their effect on later requests is not modelled',
     'header names/values and cookie renderings of handler-made responses are wire-safe (C14) and UTF-8 encodable: '
     'hypothesis of C03_headers_wf',
 ]
@@ -1197,33 +1199,41 @@ def corpus():
 
 
 def thorough():
-    """bounded-exhaustive: a depth-2 alphabet of handler values x verbs x wrapper x outcome position"""
+    """bounded-exhaustive: every value of a depth-2 alphabet as what the handler returns, raises
+    (response objects) or yields first, x verbs x wrapper x error-page flavour x one hook shape"""
     hello = _str('hi')
     leaves = [dict(k='falsy', v='none'), _str(''), hello, dict(k='bytes', b=[1, 2]), dict(k='other', v='int'),
-              _str('\ud800')]
+              _str('\ud800'), dict(k='falsy', v='ebytes')]
     ids = itertools.count(1)
 
-    def iters(elems):
+    def iters(elems, sizes=(0, 1, 2), boxes=(None,)):
         outs = []
-        for n in (0, 1, 2):
+        for n in sizes:
             for combo in itertools.product(elems, repeat=n):
                 for close in (False, True):
-                    outs.append(dict(k='iter', id=next(ids), close=close, items=list(combo), list=False))
+                    for box in boxes:
+                        outs.append(dict(k='iter', id=next(ids), close=close, items=list(combo), list=False, box=box))
         return outs
-    item_leaves = [dict(k='yield', o=o) for o in leaves[:5]] + [dict(k='raise_exc')]
+    item_leaves = [dict(k='yield', o=o) for o in leaves] + [dict(k='raise_exc')]
     level1 = list(leaves)
-    level1 += iters(item_leaves)
+    level1 += iters(item_leaves, boxes=(None, 'gen'))
+    level1 += iters(item_leaves[:4], sizes=(3,))
     for cl in (False, True):
         for it in (False, True):
             for content in ([], [65]):
                 level1.append(dict(k='file', id=next(ids), close=cl, iter=it, content=content))
     level2 = list(level1)
-    for st in (200, 102, 204, 304, 404, 500):
-        for b in leaves[:4] + [level1[8], level1[-1]]:
+    bodies = leaves[:5] + [o for o in level1 if o['k'] == 'iter' and len(o['items']) == 1][:8] + level1[-8:]
+    for st in (200, 102, 204, 304, 404, 500, '299 Custom'):
+        for b in bodies:
             for err in (False, True):
                 level2.append(_resp(st, b, err=err))
-    wrappers = [dict(k='yield', o=o) for o in level2 if o['k'] == 'http'][:24]
-    level2 += iters(wrappers[:6] + item_leaves[:2])[:200]
+                level2.append(_resp(st, b, err=err, headers=[('Content-Length', '7'), ('content-type', 'text/plain; charset=latin1')],
+                                    cookies=[('sid', 'v1')]))
+    wrappers = [dict(k='yield', o=o) for o in level2 if o['k'] == 'http']
+    level2 += iters(wrappers[:40] + item_leaves[:2], sizes=(1,))
+    level2 += iters(wrappers[:6] + item_leaves[:2], sizes=(2,))
+    hooks = [([], []), ([OK_HOOK, BAD_HOOK], [OK_HOOK, OK_HOOK])]
     for o in level2:
         for method in ('GET', 'HEAD', 'POST'):
             for fw in (False, True):
@@ -1232,11 +1242,17 @@ def thorough():
                 for js in (False, True):
                     if js and o['k'] != 'http':
                         continue
-                    yield ret(o, method=method, fw=fw, json=js)
-                    if o['k'] == 'http':
-                        yield ret(o, method=method, fw=fw, json=js,
-                                  routing=dict(k='ok', reg=method, rhooks=[],
-                                               h=dict(muts=[], res=dict(k='raise_http', err=o['err'], r=o['r']))))
+                    for bef, aft in hooks:
+                        if bef and (method != 'GET' or o['k'] not in ('http', 'falsy')):
+                            continue
+                        yield ret(o, method=method, fw=fw, json=js, before=bef, after=aft)
+                        if o['k'] == 'http':
+                            yield ret(o, method=method, fw=fw, json=js, before=bef, after=aft,
+                                      routing=dict(k='ok', rhooks=[],
+                                                   h=dict(muts=[], res=dict(k='raise_http', err=o['err'], r=o['r']))))
+                            if o['err']:
+                                yield ret(o, method=method, fw=fw, json=js, before=bef, after=aft,
+                                          eh=[[status_of(o['r']['status'])[0], dict(k='body')]])
 
 
 # --------------------------------------------------------------------------
@@ -1337,8 +1353,22 @@ def pred_status_line_shape(case, what, m):
 PREDICATES = {'status_line_shape': pred_status_line_shape}
 
 MANIFEST = dict(
-    text='(filled in when the theorems are in place)',
-    note='',
+    text=('Proof: 14 theorems in coq/props/C03.v (Coq, all closed under the global context) about the hand-written model '
+          'coq/model/Wsgi.v of Ombott._handle/handler/emit/_cast/wsgi, headerlist, apply and the status setter, for ALL '
+          'handler programs of the grammar out/item/resp (nesting unbounded), all hook lists, routing outcomes, error-handler '
+          'functions and environ facts: exactly one start_response (also in and after the catch-all); the casting loop ends '
+          'within 1001 passes; HEAD/1xx/204/304 return the empty list (no-body test read from the source); at most one '
+          'close() per request and exactly one for the object that became the body; a framework-written Content-Length '
+          'equals the bytes returned; status line / header list / chunk types well-formed under stated hypotheses on the '
+          'application\'s own values; nothing escapes for a decoded path and hook/handler/first-next crashes give a 500; '
+          'hook order and prefixes incl. hook lists edited while running.  The model is tied to /repo on every run by a '
+          'trace correspondence (extracted OCaml + vm_compute) under a PEP 3333 validator written for the check, and an '
+          'independent oracle states the property clauses on the recorded events.'),
+    note=('Hypotheses in statements: wf_program (status pairs as the setter leaves them / header names are tokens and values '
+          'have no LF CR NUL (C14) / items after the first bytes chunk are bytes); eh returns well-formed values; eh 500 = '
+          'None for the 500 claim; Forall scalar path (a decoded path) for "nothing escapes". Findings: status setter stores '
+          'malformed custom lines verbatim (C03_status_setter_shape_refuted); iterables abandoned by _cast are never closed '
+          '(C03_close_every_touched_iterable_refuted; outside the property wording). Modelled, not verified: see TRUSTED.'),
     technique='Coq proof over handler programs as data + model/implementation trace correspondence under a PEP 3333 validator',
     design_ref='DESIGN.md section 4, C03',
 )
